@@ -44,6 +44,16 @@ theorem snd_cloneColl (dst : Var) (e : CExpr) :
     intro o ho; cases ho; exact w
   · exact ⟨i, trivial⟩
 
+theorem snd_shallowColl (dst : Var) (e : CExpr) :
+    Inv cx h0 (exec (.shallowColl dst e) st).1 ∧
+    Post cx t0 (check cx.strict (.shallowColl dst e) a) (exec (.shallowColl dst e) st).1 (exec (.shallowColl dst e) st).2 := by
+  simp only [exec, check, Res.step]
+  split
+  · rename_i s idxs _
+    have sp := Step.alloc cx st.heap (.coll s idxs)
+    exact ⟨(i.heap sp).bind, _, rfl, (g.heap sp).bindAlias⟩
+  · exact ⟨i, trivial⟩
+
 theorem snd_cloneCatalog (dst src : Var) :
     Inv cx h0 (exec (.cloneCatalog dst src) st).1 ∧
     Post cx t0 (check cx.strict (.cloneCatalog dst src) a) (exec (.cloneCatalog dst src) st).1
@@ -97,7 +107,9 @@ theorem snd_setNs (c : Var) (hx : HExpr) (v : Var) (ok : (check cx.strict (.setN
   · rename_i o ns x ho _
     have w := g.cat_own ok (St.obj_some ho).1
     have sp := Step.write (cx := cx) st.heap (x := .cat (mapPut ns (st.hval hx) x)) w.writable FreshObj.cat
-    exact ⟨i.heap sp, _, rfl, Gam.congr (a := a) ⟨rfl, rfl, rfl, rfl⟩ (g.heap sp)⟩
+    split
+    · exact ⟨i.heap sp, _, rfl, Gam.congr (a := a) ⟨rfl, rfl, rfl, rfl⟩ (g.heap sp)⟩
+    · exact ⟨i, trivial⟩
   · exact ⟨i, _, rfl, Gam.congr (a := a) ⟨rfl, rfl, rfl, rfl⟩ g⟩
   · exact ⟨i, trivial⟩
 
@@ -180,7 +192,9 @@ theorem snd_setCatalog (v : Var) :
   simp only [exec, check, Res.step]
   split
   · rename_i o ho
-    refine ⟨⟨i.base, i.step, i.docs⟩, _, rfl, ⟨g.vars, g.docs, fun h => g.var_own h ho, fun h => by cases h⟩⟩
+    split
+    · refine ⟨⟨i.base, i.step, i.docs⟩, _, rfl, ⟨g.vars, g.docs, fun h => g.var_own h ho, fun h => by cases h⟩⟩
+    · exact ⟨i, trivial⟩
   · exact ⟨i, trivial⟩
 
 theorem snd_setDirty :
@@ -265,6 +279,7 @@ theorem sound_exec : ∀ (s : Stmt) (a : Abs) (st : St), Inv cx h0 st → Gam cx
   | .alias d e, _, _, i, g, _ => snd_alias i g d e
   | .newColl d, _, _, i, g, _ => snd_newColl i g d
   | .cloneColl d e, _, _, i, g, _ => snd_cloneColl i g d e
+  | .shallowColl d e, _, _, i, g, _ => snd_shallowColl i g d e
   | .setNs c h v, _, _, i, g, ok => snd_setNs i g c h v ok
   | .setNsNew c h, _, _, i, g, ok => snd_setNsNew i g c h ok
   | .deleteNs c h, _, _, i, g, ok => snd_deleteNs i g c h ok
